@@ -261,3 +261,93 @@ fn c10_twin_must_fail() {
     let plan: RewritePlan<Id, _> = RewritePlan::from_values_to_sort(&vec_n::<2, u8>(v));
     assert!(usize::from(plan.rewrite(&Id::from(0usize))) == 0, "TWIN every plan is the identity (false)");
 }
+
+// ---- rewriting of non-empty networks ---------------------------------------------------------------
+
+use super::coll::BTreeMap;
+use crate::util::{HashableHashMap, HashableHashSet};
+
+fn plan2(v: [u8; 4]) -> RewritePlan<Id, DenseNatMap<Id, Id>> {
+    RewritePlan::from_values_to_sort(&vec_n::<2, u8>(v))
+}
+
+/// A non-duplicating network keeps every copy when rewritten: the envelope `src -> dst` held
+/// `c` times becomes `pi(src) -> pi(dst)` held `c` times (payload ids rewritten too).
+#[kani::proof]
+#[kani::unwind(5)]
+fn c10_network_rewrite_nonduplicating() {
+    let v: [u8; 4] = [kani::any(), kani::any(), 0, 0];
+    kani::assume(v[0] < 2 && v[1] < 2);
+    let plan = plan2(v);
+    let (s, d, p): (usize, usize, usize) = (kani::any(), kani::any(), kani::any());
+    kani::assume(s < 2 && d < 2 && p < 2);
+    let c: usize = kani::any();
+    kani::assume(c >= 1 && c <= 3);
+    let mut m: HashableHashMap<Envelope<Id>, usize> = HashableHashMap::new();
+    m.insert(Envelope { src: Id::from(s), dst: Id::from(d), msg: Id::from(p) }, c);
+    let net = Network::UnorderedNonDuplicating(m);
+    let r = net.rewrite(&plan);
+    let pi = |x: usize| Id::from(stable_rank::<2, u8>(&v, x));
+    assert!(r.len() == c, "C10 rewriting a non-duplicating network keeps every copy of every message");
+    let mut ok = false;
+    for e in r.iter_deliverable() {
+        ok = e.src == pi(s) && e.dst == pi(d) && *e.msg == pi(p);
+    }
+    assert!(ok, "C10 message endpoints and embedded ids are rewritten by the same plan (non-duplicating network)");
+    kani::cover!(c == 2 && v[0] > v[1], "two copies under a swapping plan");
+}
+
+/// A duplicating network: the set of envelopes and the last delivered message are rewritten.
+#[kani::proof]
+#[kani::unwind(5)]
+fn c10_network_rewrite_duplicating() {
+    let v: [u8; 4] = [kani::any(), kani::any(), 0, 0];
+    kani::assume(v[0] < 2 && v[1] < 2);
+    let plan = plan2(v);
+    let (s, d, p): (usize, usize, usize) = (kani::any(), kani::any(), kani::any());
+    kani::assume(s < 2 && d < 2 && p < 2);
+    let e = Envelope { src: Id::from(s), dst: Id::from(d), msg: Id::from(p) };
+    let mut set: HashableHashSet<Envelope<Id>> = HashableHashSet::new();
+    set.insert(e);
+    let net = Network::UnorderedDuplicating(set, Some(e));
+    let r = net.rewrite(&plan);
+    let pi = |x: usize| Id::from(stable_rank::<2, u8>(&v, x));
+    let want = Envelope { src: pi(s), dst: pi(d), msg: pi(p) };
+    assert!(r.len() == 1, "C10 rewriting a duplicating network keeps its envelopes");
+    match &r {
+        Network::UnorderedDuplicating(rs, last) => {
+            assert!(rs.contains(&want), "C10 envelope rewritten by the plan (duplicating network)");
+            assert!(*last == Some(want), "C10 the last delivered message is rewritten by the same plan");
+        }
+        _ => assert!(false, "C10 rewriting keeps the network kind"),
+    }
+    kani::cover!(v[0] > v[1], "swapping plan");
+}
+
+/// An ordered network: every flow moves to the rewritten endpoints and keeps its queue order.
+#[kani::proof]
+#[kani::unwind(5)]
+fn c10_network_rewrite_ordered() {
+    let v: [u8; 4] = [kani::any(), kani::any(), 0, 0];
+    kani::assume(v[0] < 2 && v[1] < 2);
+    let plan = plan2(v);
+    let (s, d, p, q): (usize, usize, usize, usize) = (kani::any(), kani::any(), kani::any(), kani::any());
+    kani::assume(s < 2 && d < 2 && p < 2 && q < 2);
+    let mut flow = VecDeque::with_capacity(2);
+    flow.push_back(Id::from(p));
+    flow.push_back(Id::from(q));
+    let mut map: BTreeMap<(Id, Id), VecDeque<Id>> = BTreeMap::new();
+    map.insert((Id::from(s), Id::from(d)), flow);
+    let net = Network::Ordered(map);
+    let r = net.rewrite(&plan);
+    let pi = |x: usize| Id::from(stable_rank::<2, u8>(&v, x));
+    assert!(r.len() == 2, "C10 rewriting an ordered network keeps every queued message");
+    match &r {
+        Network::Ordered(rm) => {
+            let f = rm.get(&(pi(s), pi(d))).expect("C10 the flow moves to the rewritten endpoints");
+            assert!(f.len() == 2 && f[0] == pi(p) && f[1] == pi(q), "C10 a rewritten flow keeps its queue order, payload ids rewritten");
+        }
+        _ => assert!(false, "C10 rewriting keeps the network kind"),
+    }
+    kani::cover!(v[0] > v[1] && p != q, "swapping plan, distinct payloads");
+}
